@@ -564,7 +564,9 @@ def oracle_C01(hi, ops, obs):
             if tx['signer'] == -1 and res == 'ok':
                 for m in tx['msgs']:
                     for lf in m.flat():
-                        if lf.kind == 'SETPOWER' and int(lf.args[0]) in pending_before:
+                        if lf.kind == 'SETPOWER' and lf.args and lf.args[0].lstrip('-').isdigit():
+                            # a successful SetPower stores its target as Bonded at once — an admitted applicant, and
+                            # also a jailed or unbonding validator (`UpdateValidatorSet` sets the status)
                             admitted.add(int(lf.args[0]))
             if tx['signer'] == -1 and res == 'poa:3' and not any(m.kind in ('EXEC', 'GROUPPROP', 'GOVPROP') for m in tx['msgs']):
                 # the configured admin (environment override in this harness) is refused as "not an authority": somebody
@@ -581,8 +583,8 @@ def oracle_C01(hi, ops, obs):
                 if lf.kind == 'REMOVE' and res == 'ok':
                     t = int(lf.args[0])
                     pv = prev['vals'].get(t) if prev['vals'] else None
-                    if pv is None and tx['signer'] == t and t in admitted:
-                        continue   # admitted earlier in this block: PoA stores the record as Bonded at once
+                    if tx['signer'] == t and t in admitted:
+                        continue   # re-weighted or admitted earlier in this block: PoA stores the record as Bonded at once
                     if tx['signer'] != t or pv is None or pv['status'] != 3:
                         out.append(Viol(hi, b['h'], 'remove-by-stranger-accepted', f"tx {i} signer {tx['signer']} target {t}"))
             if len(leaves) == 1 and leaves[0].kind == 'REMOVE' and tx['signer'] != int(leaves[0].args[0]) and int(leaves[0].args[0]) >= 0 and res != 'poa:3':
